@@ -22,6 +22,8 @@ type simHAProxy struct {
 	// "500" = HTTP 500.
 	Fail     func(method, path, body string) string
 	StatsCSV string
+	// Stats, when set, answers a request for the statistics page (status, body).
+	Stats func() (int, string)
 }
 
 func installHAProxy() *simHAProxy {
@@ -65,7 +67,14 @@ func (h *simHAProxy) RoundTrip(req *http.Request) (*http.Response, error) {
 		h.ManageAll = true
 	case strings.HasSuffix(path, "/unmanage_all"), strings.HasSuffix(path, "/unmanage_global"):
 		h.ManageAll = false
-	case strings.Contains(path, "stats") || strings.Contains(req.URL.RawQuery, "csv"):
+	case strings.Contains(path, "stats") || strings.Contains(path, "metrics") || strings.Contains(req.URL.RawQuery, "csv"):
+		if h.Stats != nil {
+			fn := h.Stats
+			h.mu.Unlock()
+			code, b := fn()
+			h.mu.Lock()
+			return resp(code, b)
+		}
 		return resp(200, h.StatsCSV)
 	}
 	return resp(200, "ok")
